@@ -69,10 +69,12 @@ def rule_e1(repo):
 def rule_e2(repo):
     res = RuleResult('C19.E2', 'Op.__str__ brackets a right operand of equal priority and a left operand of lower priority', floor=2)
     f = repo.func(EXPR, 'Op.__str__')
+    from ..flow import flow_of
+    fl = flow_of(f.node)
     found = {}
     for n in ast.walk(f.node):
         if isinstance(n, ast.If) and len(n.body) == 1 and isinstance(n.body[0], ast.Assign) and isinstance(n.body[0].targets[0], ast.Name):
-            cp = compare_parts(n.test)
+            cp = compare_parts(fl.inline(n.test))
             if cp and isinstance(cp[1], ast.Call) and call_attr(cp[1]) == 'priority' and isinstance(cp[1].func.value, ast.Name) and \
                     isinstance(cp[2], ast.Subscript) and is_name(cp[2].value, 'op_priority'):
                 found[(cp[1].func.value.id, n.body[0].targets[0].id)] = cp[0]
